@@ -523,13 +523,13 @@ def run(chk, tier):
             chk.fail('R5', inst, fn_loc(f), '%s must move privacy by exactly one step: found %s' % (inst, ['%s → %s' % ([(a, v) for a, v in d], list(ws) or 'unchanged') for d, (ws, _, _) in rows]), key='R5|%s' % inst)
     P = r'a0\.tui_config\.privacy_max_ttl'
     table(r'tui_app::TuiApp::expand_privacy$', [
-        (((r'discr\(%s\)' % P, 1), (r'Lt\(%s#Some\.0, len\(call:State::hops_for_flow\(call:TuiApp::tracer_data\(a0\), a0\.selected_flow\)\)\)' % P, 1)), ['Option::Some(Add(a0.tui_config.privacy_max_ttl#Some.0, 1))']),
-        (((r'discr\(%s\)' % P, 1), (r'Lt\(%s#Some\.0, len\(call:State::hops_for_flow\(call:TuiApp::tracer_data\(a0\), a0\.selected_flow\)\)\)' % P, 0)), []),
+        (((r'discr\(%s\)' % P, 1), (r'Lt\(field:0\(%s\), len\(call:State::hops_for_flow\(call:TuiApp::tracer_data\(a0\), a0\.selected_flow\)\)\)' % P, 1)), ['Option::Some(Add(field:0(a0.tui_config.privacy_max_ttl), 1))']),
+        (((r'discr\(%s\)' % P, 1), (r'Lt\(field:0\(%s\), len\(call:State::hops_for_flow\(call:TuiApp::tracer_data\(a0\), a0\.selected_flow\)\)\)' % P, 0)), []),
         (((r'discr\(%s\)' % P, 'other'),), ['Option::Some(0)']),
     ])
     table(r'tui_app::TuiApp::contract_privacy$', [
-        (((r'discr\(%s\)' % P, 1), (r'Gt\(%s#Some\.0, 0\)' % P, 1)), ['Option::Some(Sub(a0.tui_config.privacy_max_ttl#Some.0, 1))']),
-        (((r'discr\(%s\)' % P, 1), (r'Gt\(%s#Some\.0, 0\)' % P, 0)), ['Option::None']),
+        (((r'discr\(%s\)' % P, 1), (r'Gt\(field:0\(%s\), 0\)' % P, 1)), ['Option::Some(Sub(field:0(a0.tui_config.privacy_max_ttl), 1))']),
+        (((r'discr\(%s\)' % P, 1), (r'Gt\(field:0\(%s\), 0\)' % P, 0)), ['Option::None']),
         (((r'discr\(%s\)' % P, 'other'),), []),
     ])
     # key bindings: the call sites of expand_privacy / contract_privacy sit on the true edge of their own binding's check
